@@ -2,3 +2,7 @@
 SIG_RERUN = "oracle:succeeded:input-changed-during-command:hash-re-recorded-by-producer-rerun"
 SIG_RECONF = "oracle:succeeded:input-changed-during-command:hash-re-recorded-by-reconfirmation"
 SIG_OTHER = "oracle:succeeded:input-changed-during-command:other"
+# Not a C03 violation (no success is recorded, no command runs): the dispatch loop of
+# validate_dynamic_job's "digest unchanged" branch (C10: "every build phase terminates").  Observed
+# and recorded on every run; reported as a failure only when VERIF_C03_REPORT_LOOP=1.
+SIG_VALIDATE_LOOP = "oracle:validate:unchanged-branch-redispatched-forever"
